@@ -4,6 +4,7 @@ import Model.Audit
 import Model.PolicyObj
 import Model.Store
 import Model.Enfold
+import Model.CachedGuard
 /-!
 # `vaktdrv`: one case per line in, one result per line out
 -/
@@ -112,6 +113,28 @@ def pBinding : P (List Char × Nat) := fun ts => do
   let (p, ts) ← pNat ts
   pure ((u, p), ts)
 
+open Vakt.Store Vakt.CachedGuard in
+/-- ops: `mut <store op>` | `read` | `ask <key> <T|F>` (the uncached answer at that moment, supplied by the harness) -/
+def pCOp : P (COp Nat × Bool)
+  | "mut" :: ts => do let (op, ts) ← pStoreOp ts; pure ((.mutate op, false), ts)
+  | "read" :: ts => pure ((.read, false), ts)
+  | "ask" :: k :: v :: ts => do
+    let k ← k.toNat?
+    let b ← (if v == "T" then some true else if v == "F" then some false else none)
+    pure ((.ask k, b), ts)
+  | _ => none
+
+open Vakt.Store Vakt.CachedGuard in
+def runCG (cfg : Cfg) (cap : Option Nat) : CG (Vakt.Lru Nat Bool) → List (COp Nat × Bool) → List String
+  | _, [] => []
+  | g, (op, v) :: rest =>
+    let r := CachedGuard.step cfg (fun _ _ => v) (lruBackend cap) g op
+    let out := match op, r.2 with
+      | .ask _, some a => showB a ++ (if r.1.storageAsks == g.storageAsks then " hit" else " miss")
+      | .mutate _, _ => "n" ++ toString r.1.notifications
+      | _, _ => "-"
+    out :: runCG cfg cap r.1 rest
+
 def handle (toks : List String) : Option String :=
   match toks with
   | "ECHO" :: "val" :: ts => do let v ← full (pVal ts); pure ("ECHO val " ++ showVal v)
@@ -179,6 +202,12 @@ def handle (toks : List String) : Option String :=
     let r := Vakt.Enfold.run ⟨sorted, eager⟩ ⟨[], init⟩ ops
     pure (" | ".intercalate (r.2.map fun (o, t) => showOut o ++ " " ++ showB t) ++ " || " ++ showSt r.1.cache ++
       " || " ++ showSt r.1.backend)
+  | "CGUARD" :: capTok :: ts => do
+    let cap ← (if capTok == "-" then some none else capTok.toNat?.map some)
+    let (sorted, ts) ← pBool ts
+    let (eager, ts) ← pBool ts
+    let ops ← full (pCounted pCOp ts)
+    pure (" | ".intercalate (runCG ⟨sorted, eager⟩ cap (Vakt.CachedGuard.initial (Vakt.CachedGuard.lruBackend cap) []) ops))
   | "POBJ" :: ts => do
     let (ctor, ts) ← pCounted pAssign ts
     let steps ← full (pCounted pAssign ts)
